@@ -469,7 +469,8 @@ def RADIANS(
 
 def _round(number, num_digits, _rounding=decimal.ROUND_HALF_UP):
     number = decimal.Decimal(str(number))
-    with decimal.localcontext() as dc:
+    # (a context of its own: the caller's may trap Inexact or round its way)
+    with decimal.localcontext(decimal.Context()) as dc:
         dc.rounding = _rounding
         # The result can have more digits than the default precision holds
         # (e.g. ROUND(1E+20, 10)), which would raise InvalidOperation.
